@@ -66,7 +66,7 @@ def family_names_resolve(ctx, R, family_qual, expected):
                   "the name '%s' builds %s" % (alias, want),
                   "the name '%s' resolves to %s, not %s: %s" % (alias, got.short if got is not None else "nothing", want,
                                                                 "the class inherits the alias set of its parent and, being deeper in the class tree, is found first"
-                                                                if got is not None and "aliases" not in got.attrs else "alias sets overlap"))
+                                                                if got is not None and "aliases" not in got.attrs else "alias sets overlap"), robust=True)
 
 
 def simulate_search(prog, start, alias, alias_of):
